@@ -69,6 +69,11 @@ func (d *sdriver) SendProbe(ttl uint8) error {
 	if len(d.sent) == 1 {
 		d.t0 = now
 	}
+	if len(d.sent) == 1 && d.sc.Extra == "below-first" && d.sc.First > 1 {
+		// a driver that hands over a destination answer for a TTL BELOW the first one (a misbehaving third-party driver):
+		// the engine refuses the run or ignores the answer - it never returns an empty or mis-shaped list
+		d.pend = append(d.pend, resp{now + 1e6, uint8(d.sc.First - 1 - d.sc.K), true})
+	}
 	if a != 0 {
 		lat := int64(2+k%3) * 1e6
 		if d.sc.Extra == "at-deadline" && d.sc.K == k {
@@ -165,6 +170,9 @@ func checkE(sc *EScn, x *vsched.Exec, res []*common.ProbeResponse, err error, d 
 		return "horizon", ""
 	}
 	if err != nil {
+		if sc.Extra == "below-first" {
+			return "", "" // refused: fine
+		}
 		return "unexpected-error", err.Error()
 	}
 	lowestDest := -1
@@ -294,6 +302,9 @@ func eItems(tier string) []EScn {
 				c /= 3
 			}
 			out = append(out, EScn{Engine: sp.engine, First: sp.first, Last: sp.last, Ans: ans, Bound: bound})
+			for below := 0; below < sp.first-1 && below < 2; below++ {
+				out = append(out, EScn{Engine: sp.engine, First: sp.first, Last: sp.last, Ans: ans, Extra: "below-first", K: below, Bound: bound})
+			}
 			for k := 0; k < n; k++ {
 				if ans[k] != 0 {
 					out = append(out, EScn{Engine: sp.engine, First: sp.first, Last: sp.last, Ans: ans, Extra: "dup", K: k, Bound: bound})
